@@ -5,7 +5,7 @@
    Two versions: the float-faithful one (every Python float operation rounded with [rnd]) that the
    correspondence check compares with the implementation, and the exact specification the property
    text states. *)
-From Coq Require Import ZArith QArith List Bool Arith.
+From Coq Require Import ZArith QArith List Bool Arith String.
 Import ListNotations.
 Close Scope Q_scope.
 From Eudoxia Require Import Num.Rnd64 Model.Types.
@@ -33,7 +33,7 @@ Definition law_body (l : law) : law_expr :=
   | Log     => LDiv LBase (LAdd (LLog LCpus) (LConst 1))
   | Sqrt    => LDiv LBase (LSqrt LCpus)
   | Squared => LDiv LBase (LPow LCpus (LConst 2))
-  | Exp     => LIfLt 4 (LDiv LBase (LPow (LConst 2) LCpus)) (LDiv LBase (LConst 16))
+  | Exp     => LDiv LBase (LIfLt 4 (LPow (LConst 2) LCpus) (LConst 16))
   end.
 
 (* Segment.SCALING_FUNCS: name -> function, in the dict's order *)
@@ -43,6 +43,31 @@ Definition law_of_nat (n : nat) : law :=
   match n with 0 => Const | 1 => Log | 2 => Sqrt | 3 => Linear3 | 4 => Linear7 | 5 => Squared | _ => Exp end.
 Definition law_idx (l : law) : nat :=
   match l with Const => 0 | Log => 1 | Sqrt => 2 | Linear3 => 3 | Linear7 => 4 | Squared => 5 | Exp => 6 end.
+
+(* Segment.SCALING_FUNCS in the dict's order (bridge obligations law_names, law_bodies) *)
+Definition law_table : list (string * law) :=
+  [ ("const", Const); ("log", Log); ("sqrt", Sqrt); ("linear3", Linear3); ("linear7", Linear7);
+    ("squared", Squared); ("exp", Exp) ]%string.
+
+(* The source expressions this file (and suspend_ticks in Container.v) was transcribed from, as the
+   extractor normalises them; bridge obligation segment_exprs compares with the source on every run. *)
+Definition segment_exprs : list string :=
+  ["get_io_seconds: return self.storage_read_gb / DISK_SCAN_GB_SEC"%string;
+    "get_cpu_time: return self.scaling_func(num_cpus, self.baseline_cpu_seconds)"%string;
+    "get_peak_memory_gb: if self.memory_gb is not None: return self.memory_gb ; return self.storage_read_gb"%string;
+    "tick: seg_ticks = []"%string;
+    "tick: seg_ticks.append([int(io_secs / self.tick_length_secs), int(cpu_secs / self.tick_length_secs)])"%string;
+    "tick: seg_ticks[-1][1] = 1"%string;
+    "tick: last_seg_idx = max((idx for idx, (io, cpu) in enumerate(seg_ticks) if io + cpu > 0))"%string;
+    "tick: io_ticks, cpu_ticks = seg_ticks[seg_idx]"%string;
+    "tick: total_seg_ticks = io_ticks + cpu_ticks"%string;
+    "tick: self.set_current_memory_usage(seg.memory_gb)"%string;
+    "tick: io_progress_secs = (i + 1) * self.tick_length_secs"%string;
+    "tick: self.set_current_memory_usage(io_progress_secs * DISK_SCAN_GB_SEC)"%string;
+    "tick: self.set_current_memory_usage(seg.get_peak_memory_gb())"%string;
+    "init: self.tick_length_secs = 1.0 / ticks_per_second"%string;
+    "suspend: write_to_disk_secs = self.assignment.ram / DISK_SCAN_GB_SEC"%string;
+    "suspend: write_to_disk_ticks = max(1, int(write_to_disk_secs / self.tick_length_secs))"%string].
 
 (* np.log / np.sqrt are not functions we can define: their values on the integers used enter as
    tables filled from numpy (exact rationals of the doubles). *)
